@@ -1,1 +1,357 @@
-(* placeholder: proofs are being written *)
+(* Proofs for C07: to_formula is canonical, ordered, and its text parses back to an equal composition. *)
+From Coq Require Import List ZArith NArith Bool Arith String Permutation Sorted Lia.
+From CE Require Import Str TableTypes TableModel Comp ESpec CompSpec Formula FormulaSpec Render
+  CompArith CompSim FormulaComplete ESpecProofs.
+Import ListNotations.
+Local Open Scope nat_scope.
+
+(* ------------------------------------------------------------------------------------------ *)
+(* canonical text *)
+Lemma idx_vm : forall (tbl : list (string * elem)) u s a, syms_in_table tbl a = true ->
+  v_index_str tbl u s a = m_index_str tbl u s a.
+Proof.
+  intros tbl u s a Ht. unfold v_index_str, m_index_str. destruct (quick_check u s); try reflexivity.
+  unfold v_find_str, m_get_str, plain_key. destruct (has_elem tbl s) eqn:E; [reflexivity|].
+  apply (syms_absent tbl); assumption.
+Qed.
+
+Lemma idx_same : forall (tbl : list (string * elem)) u f s a b, (forall k, e_get k a = e_get k b) ->
+  idx_str tbl u f s a = idx_str tbl u f s b.
+Proof.
+  intros tbl u f s a b Hg. unfold idx_str, m_index_str, v_index_str, v_find_str, m_get_str.
+  destruct f; destruct (quick_check u s); try reflexivity.
+  - destruct (plain_key tbl s); [apply Hg | reflexivity].
+  - destruct (espec_parse tbl s); [apply Hg | reflexivity | reflexivity].
+  - apply Hg.
+  - destruct (espec_parse tbl s); [apply Hg | reflexivity | reflexivity].
+Qed.
+
+Lemma render_canonical : forall (tbl : list (string * elem)) (uni_alphabetic : char -> bool) a b f1 f2,
+  same_map a b -> nodup_keys a = true -> nodup_keys b = true -> syms_in_table tbl a = true ->
+  to_formula tbl uni_alphabetic f1 a = to_formula tbl uni_alphabetic f2 b.
+Proof.
+  intros tbl u a b f1 f2 H Ha Hb Ht.
+  assert (Hg : forall k, e_get k a = e_get k b) by (intro k; apply (H k)).
+  assert (Hi : forall s, idx_str tbl u f1 s a = idx_str tbl u f2 s b).
+  { intros s. rewrite <- (idx_same tbl u f2 s a b Hg). unfold idx_str.
+    destruct f1, f2; try reflexivity; [symmetry|]; apply idx_vm; exact Ht. }
+  unfold to_formula. rewrite !Hi, (sort_perm_eq a b Ha (same_map_perm a b H Ha Hb)). reflexivity.
+Qed.
+
+(* ------------------------------------------------------------------------------------------ *)
+(* the order *)
+Lemma ssorted_SS : forall l, ssorted l -> StronglySorted (fun x y => key_leb (fst x) (fst y) = true) l.
+Proof.
+  induction l as [|x r IH]; intros H.
+  - constructor.
+  - destruct H as [H1 H2]. constructor; [apply IH; exact H2 | apply Forall_forall; exact H1].
+Qed.
+
+Lemma render_order : forall (tbl : list (string * elem)) (uni_alphabetic : char -> bool) l f,
+  to_formula tbl uni_alphabetic f l
+  = ((if (idx_str tbl uni_alphabetic f C_ l =? 0)%Z then [] else C_ ++ show_Z (idx_str tbl uni_alphabetic f C_ l))
+     ++ (if (idx_str tbl uni_alphabetic f H_ l =? 0)%Z then [] else H_ ++ show_Z (idx_str tbl uni_alphabetic f H_ l))
+     ++ List.concat (map show_item (sort_ents l)))%list
+  /\ Permutation (sort_ents l) l
+  /\ StronglySorted (fun x y => key_leb (fst x) (fst y) = true) (sort_ents l).
+Proof.
+  intros tbl u l f. split; [reflexivity|]. split; [apply sort_perm|]. apply ssorted_SS, sort_sorted.
+Qed.
+
+(* ------------------------------------------------------------------------------------------ *)
+(* the formula AST of a composition *)
+Definition plainCH (k : key) : bool := (str_eqb (fst k) C_ || str_eqb (fst k) H_) && (snd k =? 0)%N.
+Definition iso_txt (i : N) : option str := if (i =? 0)%N then None else Some (show_N i).
+Definition item_of (kv : key * Z) : list item :=
+  if plainCH (fst kv) then [] else [El (fst (fst kv)) (iso_txt (snd (fst kv))) (Some (show_Z (snd kv)))].
+Definition items_of (s : ents) : list item := flat_map item_of s.
+Definition head_item (sym : str) (l : ents) : list item :=
+  if (e_get (sym, 0%N) l =? 0)%Z then [] else [El sym None (Some (show_Z (e_get (sym, 0%N) l)))].
+Definition ast_of (l : ents) : list item := head_item C_ l ++ head_item H_ l ++ items_of (sort_ents l).
+
+Lemma plainCH_true : forall k, plainCH k = true -> k = (C_, 0%N) \/ k = (H_, 0%N).
+Proof.
+  intros [s i] H. unfold plainCH in H. cbn [fst snd] in H. apply andb_true_iff in H. destruct H as [H1 H2].
+  apply N.eqb_eq in H2. subst i. apply orb_true_iff in H1.
+  destruct H1 as [H1|H1]; apply str_eqb_eq in H1; subst s; [left | right]; reflexivity.
+Qed.
+
+Lemma render_app : forall a b, render (a ++ b) = (render a ++ render b)%list.
+Proof. intros a b. unfold render. rewrite map_app, concat_app. reflexivity. Qed.
+
+Lemma denote_nil : forall k, denote [] k = 0%Z.
+Proof. reflexivity. Qed.
+
+Lemma denote_app : forall a b k, denote (a ++ b) k = (denote a k + denote b k)%Z.
+Proof.
+  induction a as [|x a IH]; intros b k.
+  - cbn [app]. rewrite denote_nil. lia.
+  - cbn [app]. rewrite !denote_cons, IH. lia.
+Qed.
+
+Lemma named_app : forall a b k, named (a ++ b) k = named a k || named b k.
+Proof. intros a b k. unfold named. apply existsb_app. Qed.
+
+(* --- text --- *)
+Lemma render_head : forall sym l,
+  render (head_item sym l)
+  = if (e_get (sym, 0%N) l =? 0)%Z then [] else (sym ++ show_Z (e_get (sym, 0%N) l))%list.
+Proof.
+  intros sym l. unfold head_item. destruct (e_get (sym, 0%N) l =? 0)%Z; [reflexivity|].
+  rewrite render_cons, render_item_El. cbn [iso_text opt_text app]. unfold render. cbn [map List.concat].
+  rewrite app_nil_r. reflexivity.
+Qed.
+
+Lemma render_items : forall s, render (items_of s) = List.concat (map show_item s).
+Proof.
+  induction s as [|[[sy iso] n] r IH].
+  - reflexivity.
+  - unfold items_of. cbn [flat_map]. fold (items_of r). rewrite render_app, IH. cbn [map List.concat]. f_equal.
+    unfold item_of, show_item, plainCH. cbn [fst snd].
+    destruct ((str_eqb sy C_ || str_eqb sy H_) && (iso =? 0)%N); [reflexivity|].
+    rewrite render_cons, render_item_El. unfold iso_txt.
+    destruct (iso =? 0)%N; cbn [negb iso_text opt_text]; unfold render; cbn [map List.concat]; rewrite app_nil_r.
+    + reflexivity.
+    + cbn [app]. rewrite <- app_assoc. reflexivity.
+Qed.
+
+(* --- numbers --- *)
+Lemma show_Z_pos : forall n, (0 <= n)%Z -> show_Z n = show_N (Z.to_N n).
+Proof.
+  intros n H. unfold show_Z. destruct (n <? 0)%Z eqn:E; [|reflexivity]. apply Z.ltb_lt in E. lia.
+Qed.
+
+Lemma cnt_val_show : forall n, (0 <= n)%Z -> cnt_val (Some (show_Z n)) = n.
+Proof.
+  intros n H. unfold cnt_val. rewrite (show_Z_pos n H).
+  destruct (show_N_spec (Z.to_N n)) as [_ [E _]]. rewrite E. apply Z2N.id. exact H.
+Qed.
+
+Lemma iso_val_txt : forall i, iso_val (iso_txt i) = i.
+Proof.
+  intros i. unfold iso_txt. destruct (i =? 0)%N eqn:E.
+  - apply N.eqb_eq in E. subst i. reflexivity.
+  - unfold iso_val. destruct (show_N_spec i) as [_ [E2 _]]. rewrite E2. reflexivity.
+Qed.
+
+Lemma digits_ok_show : forall n, digits_ok (show_N n) = true.
+Proof.
+  intros n. destruct (show_N_spec n) as [E1 [_ E3]]. unfold digits_ok. rewrite E1.
+  destruct (show_N n) as [|c r]; [exfalso; apply E3; reflexivity | reflexivity].
+Qed.
+
+Lemma cnt_ok_show : forall n, (0 < n <= 2147483647)%Z -> cnt_ok (Some (show_Z n)) = true.
+Proof.
+  intros n H. unfold cnt_ok. rewrite (show_Z_pos n) by lia. rewrite digits_ok_show.
+  unfold parse_i32. rewrite (parse_uint_show 2147483647 (Z.to_N n)) by lia. reflexivity.
+Qed.
+
+Lemma iso_ok_txt : forall hi s i, (i = 0%N \/ hi s i = true) -> (i < 65536)%N -> iso_ok hi s (iso_txt i) = true.
+Proof.
+  intros hi s i H Hlt. unfold iso_txt. destruct (i =? 0)%N eqn:E; [reflexivity|].
+  apply N.eqb_neq in E. destruct H as [H|H]; [contradiction|].
+  unfold iso_ok. rewrite digits_ok_show. unfold parse_u16. rewrite (parse_uint_show 65535 i) by lia.
+  exact H.
+Qed.
+
+(* --- what the AST denotes --- *)
+Lemma denote_item_of : forall k0 n0 k, (0 <= n0)%Z ->
+  denote (item_of (k0, n0)) k = if plainCH k0 then 0%Z else if key_eqb k k0 then n0 else 0%Z.
+Proof.
+  intros [sy iso] n0 k Hn. unfold item_of. cbn [fst snd]. destruct (plainCH (sy, iso)); [reflexivity|].
+  rewrite denote_cons, denote_nil. cbn [denote_item]. rewrite iso_val_txt, (cnt_val_show n0 Hn).
+  destruct (key_eqb k (sy, iso)); lia.
+Qed.
+
+Lemma denote_items : forall s k, nodup_keys s = true -> (forall k n, In (k, n) s -> (0 <= n)%Z) ->
+  denote (items_of s) k = if plainCH k then 0%Z else e_get k s.
+Proof.
+  induction s as [|[k0 n0] r IH]; intros k Hnd Hpos.
+  - cbn [items_of flat_map e_get]. rewrite denote_nil. destruct (plainCH k); reflexivity.
+  - cbn [nodup_keys] in Hnd. apply andb_true_iff in Hnd. destruct Hnd as [Hm Hnd]. apply negb_true_iff in Hm.
+    unfold items_of. cbn [flat_map]. fold (items_of r). rewrite denote_app.
+    rewrite (denote_item_of k0 n0 k) by (apply (Hpos k0); left; reflexivity).
+    rewrite (IH k Hnd) by (intros k' n' Hin; apply (Hpos k'); right; exact Hin).
+    cbn [e_get]. destruct (key_eqb k k0) eqn:E.
+    + apply key_eqb_eq in E. subst k0. rewrite (get_notmem _ _ Hm). destruct (plainCH k); lia.
+    + destruct (plainCH k0); destruct (plainCH k); lia.
+Qed.
+
+Lemma denote_head : forall sym l k, (0 <= e_get (sym, 0%N) l)%Z ->
+  denote (head_item sym l) k = if key_eqb k (sym, 0%N) then e_get (sym, 0%N) l else 0%Z.
+Proof.
+  intros sym l k H. unfold head_item. destruct (e_get (sym, 0%N) l =? 0)%Z eqn:E.
+  - apply Z.eqb_eq in E. rewrite E, denote_nil. destruct (key_eqb k (sym, 0%N)); reflexivity.
+  - rewrite denote_cons, denote_nil. cbn [denote_item iso_val]. rewrite (cnt_val_show _ H).
+    destruct (key_eqb k (sym, 0%N)); lia.
+Qed.
+
+Lemma named_items : forall s k, named (items_of s) k = true -> e_mem k s = true.
+Proof.
+  induction s as [|[[sy iso] n0] r IH]; intros k H.
+  - discriminate H.
+  - unfold items_of in H. cbn [flat_map] in H. fold (items_of r) in H. rewrite named_app in H.
+    cbn [e_mem]. apply orb_true_iff in H. destruct H as [H|H].
+    + unfold item_of in H. cbn [fst snd] in H. destruct (plainCH (sy, iso)); [discriminate H|].
+      rewrite named_cons in H. cbn [named_item] in H. rewrite iso_val_txt in H.
+      apply orb_true_iff in H. destruct H as [H|H]; [rewrite H; reflexivity | discriminate H].
+    + rewrite (IH k H). apply orb_true_r.
+Qed.
+
+Lemma named_head : forall sym l k, named (head_item sym l) k = true -> e_mem k l = true.
+Proof.
+  intros sym l k H. unfold head_item in H. destruct (e_get (sym, 0%N) l =? 0)%Z eqn:E; [discriminate H|].
+  rewrite named_cons in H. cbn [named_item iso_val] in H. apply orb_true_iff in H.
+  destruct H as [H|H]; [|discriminate H]. apply key_eqb_eq in H. subst k.
+  destruct (e_mem (sym, 0%N) l) eqn:M; [reflexivity|]. rewrite (get_notmem _ _ M) in E. discriminate E.
+Qed.
+
+Section Positive.
+  Variable l : ents.
+  Hypothesis Hnd : nodup_keys l = true.
+  Hypothesis Hpos : forall k n, In (k, n) l -> (0 < n)%Z.
+
+  Lemma get_nonneg : forall k, (0 <= e_get k l)%Z.
+  Proof.
+    intros k. destruct (e_mem k l) eqn:M.
+    - apply In_get in M. apply Hpos in M. lia.
+    - rewrite (get_notmem _ _ M). lia.
+  Qed.
+
+  Lemma denote_ast : forall k, denote (ast_of l) k = e_get k l.
+  Proof.
+    intros k. unfold ast_of. rewrite !denote_app.
+    rewrite (denote_head C_ l k (get_nonneg _)), (denote_head H_ l k (get_nonneg _)).
+    pose proof (sort_perm l) as P.
+    rewrite (denote_items (sort_ents l) k).
+    - rewrite (get_perm k _ _ P) by (apply (nodup_perm l); [apply Permutation_sym, P | exact Hnd]).
+      destruct (key_eqb k (C_, 0%N)) eqn:EC.
+      + apply key_eqb_eq in EC. subst k. change (key_eqb (C_, 0%N) (H_, 0%N)) with false.
+        change (plainCH (C_, 0%N)) with true. cbv iota. lia.
+      + destruct (key_eqb k (H_, 0%N)) eqn:EH.
+        * apply key_eqb_eq in EH. subst k. change (plainCH (H_, 0%N)) with true. cbv iota. lia.
+        * destruct (plainCH k) eqn:EP; [|lia]. apply plainCH_true in EP.
+          destruct EP as [EP|EP]; subst k; [rewrite key_eqb_refl in EC; discriminate EC
+                                           | rewrite key_eqb_refl in EH; discriminate EH].
+    - apply (nodup_perm l); [apply Permutation_sym, P | exact Hnd].
+    - intros k' n' Hin. apply (Permutation_in _ P) in Hin. apply Hpos in Hin. lia.
+  Qed.
+
+  Lemma named_ast : forall k, named (ast_of l) k = true -> e_mem k l = true.
+  Proof.
+    intros k H. unfold ast_of in H. rewrite !named_app in H.
+    apply orb_true_iff in H. destruct H as [H|H]; [apply (named_head C_ l k H)|].
+    apply orb_true_iff in H. destruct H as [H|H]; [apply (named_head H_ l k H)|].
+    apply named_items in H. rewrite <- (mem_perm k _ _ (sort_perm l)). exact H.
+  Qed.
+
+  Lemma mem_get_pos : forall k, e_mem k l = true -> e_get k l <> 0%Z.
+  Proof. intros k M. apply In_get in M. apply Hpos in M. lia. Qed.
+End Positive.
+
+(* --- the AST is well formed --- *)
+Section WfAst.
+  Variable tbl : list (string * elem).
+  Variable uni_numeric : char -> bool.
+  Variable l : ents.
+  Hypothesis Hnd : nodup_keys l = true.
+  Hypothesis Hall : forall k n, In (k, n) l ->
+    (0 < n <= 2147483647)%Z /\ sym_shape uni_numeric (fst k) = true /\ has_elem tbl (fst k) = true
+    /\ (snd k = 0%N \/ has_iso tbl (fst k) (snd k) = true) /\ (snd k < 65536)%N.
+
+  Notation wfi := (wf_item uni_numeric (has_elem tbl) (has_iso tbl) false).
+
+  Lemma wf_head_item : forall sym, sym_shape uni_numeric sym = true -> forallb wfi (head_item sym l) = true.
+  Proof.
+    intros sym Hs. unfold head_item. destruct (e_get (sym, 0%N) l =? 0)%Z eqn:E; [reflexivity|].
+    apply Z.eqb_neq in E.
+    assert (M : e_mem (sym, 0%N) l = true).
+    { destruct (e_mem (sym, 0%N) l) eqn:M; [reflexivity|]. rewrite (get_notmem _ _ M) in E. contradiction. }
+    apply In_get in M. destruct (Hall _ _ M) as [A1 [_ [A3 _]]]. cbn [fst] in A3.
+    cbn [forallb wf_item iso_ok]. rewrite Hs, A3, (cnt_ok_show _ A1). reflexivity.
+  Qed.
+
+  Lemma wf_items : forall s, (forall kv, In kv s -> In kv l) -> forallb wfi (items_of s) = true.
+  Proof.
+    intros s Hs. apply forallb_forall. intros it Hit. unfold items_of in Hit. apply in_flat_map in Hit.
+    destruct Hit as [[[sy iso] n] [Hin Hit]]. unfold item_of in Hit. cbn [fst snd] in Hit.
+    destruct (plainCH (sy, iso)); [destruct Hit|]. destruct Hit as [Hit|[]]. subst it.
+    destruct (Hall _ _ (Hs _ Hin)) as [A1 [A2 [A3 [A4 A5]]]]. cbn [fst snd] in A2, A3, A4, A5.
+    cbn [wf_item]. rewrite A2, A3, (cnt_ok_show _ A1), (iso_ok_txt (has_iso tbl) sy iso A4 A5). reflexivity.
+  Qed.
+
+  Lemma ast_nonempty : l <> [] -> ast_of l <> [].
+  Proof.
+    intros Hne. destruct l as [|[k0 n0] r] eqn:Eql; [contradiction|]. rewrite <- Eql in *.
+    assert (Hin : In (k0, n0) l) by (rewrite Eql; left; reflexivity).
+    assert (Hg : e_get k0 l = n0) by (apply get_In; assumption).
+    destruct (Hall _ _ Hin) as [A1 _].
+    unfold ast_of. destruct (plainCH k0) eqn:EP.
+    - apply plainCH_true in EP. destruct EP as [EP|EP]; subst k0; unfold head_item; rewrite Hg.
+      + destruct (n0 =? 0)%Z eqn:E0; [apply Z.eqb_eq in E0; lia|]. discriminate.
+      + destruct (n0 =? 0)%Z eqn:E0; [apply Z.eqb_eq in E0; lia|].
+        intros C. apply app_eq_nil in C. destruct C as [_ C]. discriminate C.
+    - intros C. apply app_eq_nil in C. destruct C as [_ C]. apply app_eq_nil in C. destruct C as [_ C].
+      assert (Hs : In (k0, n0) (sort_ents l)) by (apply (Permutation_in _ (Permutation_sym (sort_perm l))); exact Hin).
+      assert (Hi : In (El (fst k0) (iso_txt (snd k0)) (Some (show_Z n0))) (items_of (sort_ents l))).
+      { unfold items_of. apply in_flat_map. exists (k0, n0). split; [exact Hs|].
+        unfold item_of. cbn [fst snd]. rewrite EP. left. reflexivity. }
+      rewrite C in Hi. destruct Hi.
+  Qed.
+
+  Lemma wf_ast : l <> [] -> wf uni_numeric (has_elem tbl) (has_iso tbl) false (ast_of l) = true.
+  Proof.
+    intros Hne. unfold wf. apply andb_true_iff. split.
+    - pose proof (ast_nonempty Hne) as N. destruct (ast_of l); [contradiction | reflexivity].
+    - unfold ast_of. rewrite !forallb_app.
+      rewrite (wf_head_item C_) by reflexivity. rewrite (wf_head_item H_) by reflexivity.
+      rewrite wf_items; [reflexivity|]. intros kv Hin. apply (Permutation_in _ (sort_perm l)). exact Hin.
+  Qed.
+End WfAst.
+
+(* --- "C" and "H" are read as the isotope-free keys --- *)
+Lemma idx_plain : forall (tbl : list (string * elem)) u f s l, table_syms_ok tbl = true ->
+  syms_in_table tbl l = true -> split_lb s = None -> idx_str tbl u f s l = e_get (s, 0%N) l.
+Proof.
+  intros tbl u f s l Ht Hl Hs.
+  destruct (index_str_spec tbl u Ht l s Hl) as [Hv Hm].
+  assert (E : match espec_parse tbl s with EOk k => e_get k l | _ => 0%Z end = e_get (s, 0%N) l).
+  { unfold espec_parse. rewrite Hs. destruct (has_elem tbl s) eqn:He; [reflexivity|].
+    symmetry. apply (syms_absent tbl); assumption. }
+  unfold idx_str. destruct f; [rewrite Hm | rewrite Hv]; exact E.
+Qed.
+
+(* ------------------------------------------------------------------------------------------ *)
+(* the text of a non-empty composition with positive counts parses back to an equal composition.
+   (For l = [] the text is empty and parse_formula answers FErr IncompleteFormula: the statement of
+   C07_render_parse without `l <> []` is false.) *)
+Lemma render_parse_nonempty : forall (tbl : list (string * elem)) (uni_alphabetic uni_numeric : char -> bool),
+  table_syms_ok tbl = true -> forall l f,
+  l <> [] ->
+  nodup_keys l = true ->
+  (forall k n, In (k, n) l ->
+     (0 < n <= 2147483647)%Z /\ sym_shape uni_numeric (fst k) = true /\ has_elem tbl (fst k) = true
+     /\ (snd k = 0%N \/ has_iso tbl (fst k) (snd k) = true) /\ (snd k < 65536)%N) ->
+  exists c, parse_formula uni_numeric (has_elem tbl) (has_iso tbl) (to_formula tbl uni_alphabetic f l) = FOk c
+            /\ same_map c l.
+Proof.
+  intros tbl u un Ht l f Hne Hnd Hall.
+  assert (Hpos : forall k n, In (k, n) l -> (0 < n)%Z).
+  { intros k n Hin. destruct (Hall k n Hin) as [A _]. lia. }
+  assert (Hl : syms_in_table tbl l = true).
+  { unfold syms_in_table. apply forallb_forall. intros [k n] Hin. destruct (Hall k n Hin) as [_ [_ [A _]]]. exact A. }
+  assert (Hr : render (ast_of l) = to_formula tbl u f l).
+  { unfold ast_of, to_formula. rewrite !render_app, !render_head, render_items.
+    rewrite (idx_plain tbl u f C_ l Ht Hl) by reflexivity.
+    rewrite (idx_plain tbl u f H_ l Ht Hl) by reflexivity. reflexivity. }
+  destruct (parse_complete un (has_elem tbl) (has_iso tbl) (ast_of l) (wf_ast tbl un l Hnd Hall Hne))
+    as [c [Hp [Hg Hm]]].
+  exists c. split; [rewrite <- Hr; exact Hp|].
+  assert (Hget : forall k, e_get k c = e_get k l).
+  { intros k. rewrite Hg. apply denote_ast; assumption. }
+  intros k. split; [apply Hget|].
+  destruct (e_mem k c) eqn:Mc.
+  - symmetry. apply (named_ast l). apply Hm. exact Mc.
+  - destruct (e_mem k l) eqn:Ml; [|reflexivity].
+    exfalso. apply (mem_get_pos l Hpos k Ml). rewrite <- Hget. apply get_notmem. exact Mc.
+Qed.
